@@ -3,6 +3,8 @@ import hashlib
 import json
 import multiprocessing as mp
 import os
+import pickle
+import signal
 import time
 import traceback
 from collections import Counter
@@ -91,27 +93,111 @@ class Acc:
 
 # ------------------------------------------------------------------ sharded execution
 
-def _init_worker(root):
-    env.enter_private_dir(root)
+# A worker is a forked child running ONE job.  The parent watches it: the child reports which generated case it is working
+# on (progress file) and periodically flushes its accumulator (partial file).  A case that runs past the hard limit - a C
+# extension that ignores the per-case alarm, runaway memory - gets the child killed; the job is restarted from the last
+# flush with that case index poisoned (counted inconclusive, label killed-by-watchdog).  A child that dies by itself
+# (abort inside a solver) is handled the same way.  Nothing is ever silently lost and a runaway case cannot hang a check.
+
+_TRACK = {"acc": None, "progress": None, "partial": None, "resume_from": 0, "poison": (), "index": 0, "last_flush": 0.0}
+MEM_LIMIT_BYTES = int(os.environ.get("VERIF_WORKER_MEM_GB", "10")) * (1 << 30)
 
 
-def _call(job):
-    fn, arg = job
+def track(acc):
+    """called by a job function: makes its accumulator visible to the watchdog machinery (enables resume)"""
+    _TRACK["acc"] = acc
+    return acc
+
+
+def _progress(idx, running):
+    fd = _TRACK["progress"]
+    if fd is not None:
+        try:
+            os.pwrite(fd, ("%d %d %.3f\n" % (idx, 1 if running else 0, time.time())).ljust(48).encode(), 0)
+        except OSError:
+            pass
+
+
+def _flush_partial(next_index, force=False):
+    path = _TRACK["partial"]
+    acc = _TRACK["acc"]
+    if path is None or acc is None:
+        return
+    now = time.time()
+    if not force and now - _TRACK["last_flush"] < 0.5:
+        return
+    _TRACK["last_flush"] = now
+    tmp = path + ".tmp"
+    with open(tmp, "wb") as f:
+        pickle.dump((acc, next_index), f)
+    os.replace(tmp, path)
+
+
+def guarded_body(body):
+    """wraps a per-case body with progress reporting, resume and poison handling"""
+    def wrapped(case):
+        idx = _TRACK["index"]
+        _TRACK["index"] = idx + 1
+        if idx < _TRACK["resume_from"]:
+            return
+        if idx in _TRACK["poison"]:
+            acc = _TRACK["acc"]
+            if acc is not None:
+                acc.inconclusive += 1
+                acc.label("killed-by-watchdog")
+            return
+        _progress(idx, True)
+        try:
+            body(case)
+        finally:
+            _progress(idx, False)
+            _flush_partial(idx + 1)
+    return wrapped
+
+
+def _child_main(fn, arg, job_dir, root, resume_from, poison):
+    status = 0
     try:
-        return fn(arg)
-    except env.CaseTimeout:
-        a = Acc()
-        a.inconclusive += 1
-        return a
-    except BaseException as e:  # a harness error must not be silently lost
-        a = Acc()
-        a.harness_errors.append("%s: %s\n%s" % (type(e).__name__, e, traceback.format_exc()[-1500:]))
-        return a
+        try:
+            import resource
+            resource.setrlimit(resource.RLIMIT_AS, (MEM_LIMIT_BYTES, MEM_LIMIT_BYTES))
+        except Exception:
+            pass
+        env.enter_private_dir(root)
+        _TRACK.update(acc=None, progress=os.open(os.path.join(job_dir, "progress"), os.O_RDWR | os.O_CREAT, 0o600),
+                      partial=os.path.join(job_dir, "partial"), resume_from=resume_from, poison=tuple(poison), index=0,
+                      last_flush=time.time())
+        try:
+            acc = fn(arg)
+        except env.CaseTimeout:
+            acc = Acc()
+            acc.inconclusive += 1
+        except BaseException as e:  # a harness error must not be silently lost
+            acc = Acc()
+            acc.harness_errors.append("%s: %s\n%s" % (type(e).__name__, e, traceback.format_exc()[-1500:]))
+        tmp = os.path.join(job_dir, "result.tmp")
+        with open(tmp, "wb") as f:
+            pickle.dump(acc, f)
+        os.replace(tmp, os.path.join(job_dir, "result"))
+    except BaseException:
+        status = 3
+    finally:
+        os._exit(status)
 
 
-def run_jobs(fn, args, nproc=None):
-    """Run fn(arg) -> Acc for every arg in a fork pool; merged Acc."""
+def _read_progress(job_dir):
+    try:
+        with open(os.path.join(job_dir, "progress"), "rb") as f:
+            parts = f.read(48).split()
+        return int(parts[0]), int(parts[1]) == 1, float(parts[2])
+    except (OSError, ValueError, IndexError):
+        return None
+
+
+def run_jobs(fn, args, nproc=None, hard_case_s=None):
+    """Run fn(arg) -> Acc for every arg, each in its own watched child process; merged Acc."""
     nproc = nproc or env.NPROC
+    hard_case_s = float(os.environ.get("VERIF_HARD_CASE_S", hard_case_s or 300))
     total = Acc()
     args = list(args)
     # import the library under test BEFORE forking and before any per-case alarm: an alarm that fires in the middle
@@ -125,19 +211,84 @@ def run_jobs(fn, args, nproc=None):
     if not args:
         return total
     root = env.scratch_root()
-    if nproc <= 1 or len(args) == 1:
-        here = os.getcwd()
-        env.enter_private_dir(root)
+    jobs = []
+    for i, a in enumerate(args):
+        d = os.path.join(root, "job%d" % i)
+        os.makedirs(d, exist_ok=True)
+        jobs.append({"arg": a, "dir": d, "resume_from": 0, "poison": [], "acc": Acc(), "restarts": 0})
+    pending = list(range(len(jobs)))
+    running = {}
+
+    def start(ji):
+        job = jobs[ji]
+        for fn_ in ("progress", "partial", "result"):
+            try:
+                os.unlink(os.path.join(job["dir"], fn_))
+            except OSError:
+                pass
+        pid = os.fork()
+        if pid == 0:
+            _child_main(fn, job["arg"], job["dir"], root, job["resume_from"], job["poison"])
+        running[pid] = ji
+
+    def abnormal(ji, why):
+        job = jobs[ji]
+        prog = _read_progress(job["dir"])
+        partial = None
         try:
-            for a in args:
-                total.merge(_call((fn, a)))
-        finally:
-            os.chdir(here)
-        return total
-    ctx = mp.get_context("fork")
-    with ctx.Pool(min(nproc, len(args)), initializer=_init_worker, initargs=(root,), maxtasksperchild=None) as pool:
-        for acc in pool.imap_unordered(_call, [(fn, a) for a in args]):
-            total.merge(acc)
+            with open(os.path.join(job["dir"], "partial"), "rb") as f:
+                partial = pickle.load(f)
+        except Exception:
+            partial = None
+        if prog is None:
+            total.harness_errors.append("worker for job %d %s before reporting progress" % (ji, why))
+            return
+        idx, _running, _t = prog
+        if partial is not None:
+            job["acc"].merge(partial[0])
+            job["resume_from"] = max(job["resume_from"], partial[1])
+        job["poison"].append(idx)
+        job["restarts"] += 1
+        total.classes["watchdog:" + why] += 1
+        if job["restarts"] > 8:
+            total.harness_errors.append("job %d: more than 8 cases had to be killed (%s)" % (ji, why))
+            total.merge(job["acc"])
+            return
+        pending.append(ji)
+
+    while pending or running:
+        while pending and len(running) < nproc:
+            start(pending.pop(0))
+        time.sleep(0.05 if len(args) <= nproc else 0.2)
+        now = time.time()
+        for pid, ji in list(running.items()):
+            try:
+                done, status = os.waitpid(pid, os.WNOHANG)
+            except ChildProcessError:
+                done, status = pid, 0
+            job = jobs[ji]
+            if done:
+                del running[pid]
+                rp = os.path.join(job["dir"], "result")
+                if os.path.exists(rp):
+                    try:
+                        with open(rp, "rb") as f:
+                            total.merge(pickle.load(f))
+                        total.merge(job["acc"])
+                    except Exception as e:
+                        total.harness_errors.append("job %d: unreadable result (%s)" % (ji, e))
+                else:
+                    abnormal(ji, "died(status=%s)" % status)
+                continue
+            prog = _read_progress(job["dir"])
+            if prog and prog[1] and now - prog[2] > hard_case_s:
+                try:
+                    os.kill(pid, signal.SIGKILL)
+                    os.waitpid(pid, 0)
+                except (OSError, ChildProcessError):
+                    pass
+                del running[pid]
+                abnormal(ji, "killed-after-%ds" % int(hard_case_s))
     return total
 
 
@@ -152,15 +303,18 @@ def drive(strategy, body, n_examples, seed_value):
     import hypothesis
     from hypothesis import HealthCheck, Phase, given, settings
 
+    gb = guarded_body(body)
+
     @hypothesis.seed(seed_value)
     @settings(max_examples=n_examples, database=None, deadline=None, derandomize=False,
               report_multiple_bugs=False, suppress_health_check=list(HealthCheck),
               phases=[Phase.generate], print_blob=False)
     @given(strategy)
     def _t(case):
-        body(case)
+        gb(case)
 
     _t()
+    _flush_partial(_TRACK["index"], force=True)
 
 
 def drive_machine(machine_cls, n_examples, steps, seed_value):
